@@ -290,6 +290,14 @@ func (x *Exec) doCall(name string, i int, c APICall) (res APIResult) {
 		res.ID, res.Err = x.WS.Submit(ctx, p)
 	case "start":
 		res.ID = x.planID(c.Plan)
+		if x.Sc.CancelStartCtx {
+			// a request-scoped context: it ends as soon as the (non-blocking) Start has returned. Start documents that
+			// cancelling it does not stop the execution.
+			sctx, cancel := context.WithCancel(ctx)
+			res.Err = x.WS.Start(sctx, res.ID)
+			cancel()
+			break
+		}
 		res.Err = x.WS.Start(ctx, res.ID)
 	case "wait":
 		res.ID = x.planID(c.Plan)
